@@ -193,21 +193,12 @@ func baseServerEffects(c *core.Ctx, R string) {
 		// cookie defaults only where unset
 		g := u.Graph()
 		lenIs := func(field string, zero bool) core.Guard {
-			return func(x *core.Unit, br core.Branch) int {
-				cmp, ok := x.BranchCmp(br)
-				if !ok || cmp.Val == nil {
-					return 0
-				}
-				ce, _ := ast.Unparen(cmp.X).(*ast.CallExpr)
-				if ce == nil || calleeNameOf0(ce) != "len" || len(ce.Args) != 1 || !strings.HasSuffix(selPath(ce.Args[0]), "."+field) {
-					return 0
-				}
-				isZeroEdge := -positiveEdge(cmp)
-				if zero {
-					return isZeroEdge
-				}
-				return -isZeroEdge
+			// `len(c.Field) == 0` / `c.Field == ""` and their negations, in any of the equivalent spellings
+			nonEmpty := gStrExprNonEmpty(func(x *core.Unit, e ast.Expr) bool { return strings.HasSuffix(selPath(e), "."+field) })
+			if zero {
+				return gNot(nonEmpty)
 			}
+			return nonEmpty
 		}
 		for _, cd := range []struct {
 			field string
@@ -324,16 +315,20 @@ func baseServerEffects(c *core.Ctx, R string) {
 			}
 			more := func(x *core.Unit, br core.Branch) int {
 				be, isB := ast.Unparen(br.Cond).(*ast.BinaryExpr)
-				if br.IsCase || !isB || be.Op != token.LSS {
+				if br.IsCase || !isB {
 					return 0
 				}
-				ce, _ := ast.Unparen(be.Y).(*ast.CallExpr)
+				lhs, rhs, pol := ltNorm(be) // i+1 < len(…), in any of its spellings (len(…) > i+1, !(i+1 >= len(…)) …)
+				if pol == 0 {
+					return 0
+				}
+				ce, _ := ast.Unparen(rhs).(*ast.CallExpr)
 				if ce == nil || calleeNameOf0(ce) != "len" {
 					return 0
 				}
-				if add, isA := ast.Unparen(be.X).(*ast.BinaryExpr); isA && add.Op == token.ADD {
+				if add, isA := ast.Unparen(lhs).(*ast.BinaryExpr); isA && add.Op == token.ADD {
 					if v, ok := core.ConstInt(x.Info(), add.Y); ok && v == 1 {
-						return 1
+						return pol
 					}
 				}
 				return 0
